@@ -100,6 +100,28 @@ def run(prop, tier):
                         viols.append(dict(prop="C14", key="cross_process/bytes_differ/%s/%s" % (kind, secname), detail="%s case %d: %s vs %s differ first at offset %d (%s), sizes %d/%d" % (kind, i, ref_tag, tag, off, sec, la, lb),
                                           case=i, files=[base, other], workload=R0.workload if kind == "history" else None))
                         break
+        # (3b) several objects saved one after the other in one process must give the same bytes as when saved alone
+        win = 6
+        oseq = os.path.join(wd, "saveseq")
+        nwin = (len(paths) + win - 1) // win
+        C.run_driver(asan, "saveseq", nwin, oseq, args=["--list", lst, "--window", str(win)])
+        RS = C.parse_out(oseq)
+        viols += [v for v in RS.viol if v["prop"] in ("*", "C14")]
+        for i in range(len(paths)):
+            alone = os.path.join(outs[ref_tag][1], "resave_%d.c3d" % i)
+            if not os.path.exists(alone):
+                continue
+            for pas in (0, 1):
+                seqf = os.path.join(oseq, "seq%d_%d.c3d" % (pas, i))
+                if not os.path.exists(seqf):
+                    viols.append(dict(prop="C14", key="in_sequence/file_missing", detail="file %d pass %d" % (i, pas), case=i))
+                    continue
+                stats["saves_in_sequence_compared"] += 1
+                if not filecmp.cmp(alone, seqf, shallow=False):
+                    off, la, lb = first_diff(alone, seqf)
+                    sec = section_of(alone, off)
+                    viols.append(dict(prop="C14", key="in_sequence/bytes_depend_on_previous_saves/" + sec.split("(")[0], detail="%s saved after other objects in the same process differs from the same object saved alone at offset %d (%s), sizes %d/%d" % (os.path.basename(paths[i]), off, sec, la, lb), case=i, files=[paths[i], alone, seqf]))
+                    break
         # (4) memcheck: definedness of every byte handed to write(2)
         nm = 40 if q else 400
         mdir = os.path.join(wd, "memcheck")
@@ -141,7 +163,7 @@ def run(prop, tier):
                 viols.append(dict(prop="C14", key="memcheck/" + re.sub(r" of size \d+", "", e).strip().replace(" ", "_")[:40], detail="%s cases %d..%d" % (mode, a, b), case=a))
         cnt = R0.cnt
         cov = dict(evaluations=nh + len(paths) + stats["memcheck_cases"], distinct_nontrivial=len(R0.histsig) + len(set(json.dumps(m.get("shape"), sort_keys=True) for m in metas)),
-                   rule="objects = final states of seeded API histories and loaded corpus files (all with header events and short labels); each object is saved in 4 fresh processes (ASan fill 0xbe; glibc MALLOC_PERTURB_ 0x00/0x55/0xaa) and the files compared byte for byte; a sample is saved under valgrind memcheck with origin tracking (any uninitialised byte reaching write(2) is a violation); online: snapshot equality around every save and byte equality of two consecutive saves; distinct = distinct history signatures + distinct corpus shapes",
+                   rule="objects = final states of seeded API histories and loaded corpus files (all with header events and short labels); each object is saved in 4 fresh processes (ASan fill 0xbe; glibc MALLOC_PERTURB_ 0x00/0x55/0xaa) and the files compared byte for byte; a sample is saved under valgrind memcheck with origin tracking (any uninitialised byte reaching write(2) is a violation); online: snapshot equality around every save and byte equality of two consecutive saves (the second destination pre-filled with longer junk); every loaded file is also saved after other objects in one process (two orders) and compared with its stand-alone save; distinct = distinct history signatures + distinct corpus shapes",
                    samples=R0.samples[:2] + [dict(file=os.path.basename(paths[0]), variants=metas[0]["variants"])],
                    saves_with_snapshot_equality_checked=cnt.get("c14_purity_checked", 0), double_saves_compared=cnt.get("c14_double_saves", 0),
                    processes_per_object=len(runs), **dict(stats))
